@@ -131,7 +131,9 @@ def rule_grid(rep, sm):
     rep.ob(R, "make_sincs/windowed-normalised", sm["windowed"] and sm["norm_div_factor"] and sm["fill_div_sum"] and sm["window_call_ok"],
            "taps are window·sinc, normalised by sum/factor (unit DC gain per sub-filter on average), window made for totpoints", loc(fn))
     rg = sm["fill_ranges"]
-    rep.ob(R, "make_sincs/fill-ranges", rg.get("p") == ("i:0", sm["params"][0]) and rg.get("n") == ("i:0", sm["params"][1]) and sp.simplify(sm["fill"]["yidx"] - (F * sm["alg"].sym("p") + sm["alg"].sym("n"))) == 0,
+    cv = sm.get("col_var")
+    rv = (sm.get("row_vars") or [None])[0]
+    rep.ob(R, "make_sincs/fill-ranges", cv is not None and rv is not None and rg.get(cv) == ("i:0", sm["params"][0]) and rg.get(rv) == ("i:0", sm["params"][1]) and sp.simplify(sm["fill"]["yidx"] - (F * sm["alg"].sym(cv) + sm["alg"].sym(rv))) == 0,
            "table fill covers p in 0..npoints, n in 0..factor with y[factor·p + n] (ranges %s, index %s)" % (rg, sm["fill"]["yidx"]), loc(fn))
 
 
